@@ -788,7 +788,7 @@ func (p *sparser) expr() (*SExpr, error) {
 		if p.isOp("{") {
 			p.next()
 			for {
-				pe, err := p.add()
+				pe, err := p.cmp()
 				if err != nil {
 					return nil, err
 				}
